@@ -136,6 +136,23 @@ pub fn extension_sets() -> Vec<(String, Vec<u8>)> {
 	for (n, b) in ekus {
 		v.push((format!("eku/{}", n), ext(&EKU, false, b)));
 	}
+	// an extension value that does not end where its first element ends: a reader that takes the
+	// first element and stops would honour part of what is there
+	v.push(("eku/then-a-second-sequence".into(), ext(&EKU, false, cat(&[tlv(0x30, &kp(1)), tlv(0x30, &kp(2))]))));
+	v.push(("eku/then-a-null".into(), ext(&EKU, false, cat(&[tlv(0x30, &kp(1)), vec![0x05, 0x00]]))));
+	v.push(("eku/then-one-octet".into(), ext(&EKU, false, cat(&[tlv(0x30, &kp(1)), vec![0x00]]))));
+	v.push(("eku/long-form-length".into(), ext(&EKU, false, cat(&[vec![0x30, 0x81, 0x0a], kp(1)]))));
+	v.push(("eku/second-purpose-first".into(), ext(&EKU, false, tlv(0x30, &cat(&[kp(2), kp(1)])))));
+	v.push(("ku/then-a-second-bit-string".into(), ext(&KU, true, vec![0x03, 0x02, 0x07, 0x80, 0x03, 0x02, 0x01, 0x06])));
+	v.push(("san/then-a-second-sequence".into(), ext(&SAN, false, cat(&[tlv(0x30, &tlv(0x82, b"a.example")), tlv(0x30, &tlv(0x82, b"b.example"))]))));
+	v.push(("bc/then-a-second-sequence".into(), ext(&BC, true, cat(&[tlv(0x30, &[]), tlv(0x30, &[0x01, 0x01, 0xff])]))));
+	// the same extension twice with another one between the two
+	v.push(("twice/ku-apart".into(), cat(&[ext(&KU, true, vec![0x03, 0x02, 0x01, 0x86]), ext(&SAN, false, tlv(0x30, &tlv(0x82, b"a.example"))), ext(&KU, true, vec![0x03, 0x02, 0x07, 0x80])])));
+	v.push(("twice/eku-apart".into(), cat(&[ext(&EKU, false, tlv(0x30, &cat(&[kp(1), kp(2)]))), ext(&KU, true, vec![0x03, 0x02, 0x07, 0x80]), ext(&EKU, false, tlv(0x30, &kp(1)))])));
+	// key usage bit strings longer than the named bits reach
+	for c in [vec![0x07u8, 0x80, 0x00, 0x80], vec![0x00, 0x80, 0x80, 0x01], vec![0x07, 0x86, 0x00, 0x80], vec![0x00, 0x80, 0x00, 0x00, 0x01]] {
+		v.push((format!("ku/beyond-bit-15-{}", c.iter().map(|b| format!("{:02x}", b)).collect::<String>()), ext(&KU, true, tlv(0x03, &c))));
+	}
 	// subjectAltName and nameConstraints over every general name
 	for (n, g) in general_names() {
 		v.push((format!("san/{}", n), ext(&SAN, false, tlv(0x30, &g))));
@@ -371,6 +388,20 @@ pub fn requests() -> Vec<(String, Vec<u8>)> {
 		for (n, a) in algs {
 			out.push((format!("signature-algorithm/{}", n), tlv(0x30, &cat(&[info.clone(), a, sigbits.clone()]))));
 		}
+	}
+	// two extensionRequest attributes with another attribute between them in the SET OF order (a
+	// challenge password whose length falls between theirs), and next to each other
+	{
+		let er = |e: Vec<u8>| tlv(0x30, &cat(&[ext_req.clone(), tlv(0x31, &tlv(0x30, &e))]));
+		let small = er(ext(&KU, true, vec![0x03, 0x02, 0x07, 0x80]));
+		let large = er(ext(&SAN, false, tlv(0x30, &(0..4).flat_map(|i| tlv(0x82, format!("host{}.example.com", i).as_bytes())).collect::<Vec<u8>>())));
+		let pw = |n: usize| tlv(0x30, &cat(&[oid(&[0x2a, 0x86, 0x48, 0x86, 0xf7, 0x0d, 0x01, 0x09, 0x07]), tlv(0x31, &tlv(0x0c, &vec![b'p'; n]))]));
+		for n in [1usize, 30, 200] {
+			let mut attrs = vec![small.clone(), large.clone(), pw(n)];
+			attrs.sort_by(|a, b| a.len().cmp(&b.len()).then(a.cmp(b)));
+			out.push((format!("attributes/two-extension-requests-and-a-{}-octet-password", n), sign(&name, &tlv(0xa0, &cat(&attrs)), 0)));
+		}
+		out.push(("attributes/two-extension-requests".into(), sign(&name, &tlv(0xa0, &cat(&[small.clone(), large.clone()])), 0)));
 	}
 	out.push(("version/1".into(), sign(&name, &vec![0xa0, 0x00], 1)));
 	out.push(("attributes/absent".into(), sign(&name, &vec![], 0)));
